@@ -549,6 +549,25 @@ class Gen:
     def _bad_items(self, t, k=2):
         return _spread(self.bad(t), k)
 
+    def odd(self, t, k=4):
+        """Conforming objects of unusual kinds -- one-shot iterators, non-collection iterables, user-defined carriers, views --
+        one per distinct carrier, non-empty first.  They are placed *next to* a violation, where the code that explains a
+        rejection walks over conforming siblings again."""
+        pref = ('iter', 'gen', 'UIter', 'UCont', 'URev', 'UColl', 'USeq', 'UMap', 'deque', 'frozenset', 'GL')
+        seen, out = set(), []
+        ws = self.wit(t)
+        ws = sorted(ws, key=lambda w: (0 if w[0] == 'view' else pref.index(w[1]) + 1 if w[0] in ('c', 'm') and w[1] in pref else 99,
+                                        0 if (w[0] in ('c', 'm') and w[2]) else 1))
+        for w in ws:
+            key = (w[0], w[1] if w[0] in ('c', 'm', 'view', 'raw') else None)
+            if key in seen or (w[0] in ('c', 'm') and w[1] in ('list', 'dict', 'tuple')) or w[0] in ('v', 'new', 'cls'):
+                continue
+            seen.add(key)
+            out.append(w)
+            if len(out) >= k:
+                break
+        return out
+
     def _bad_raw(self, t):
         """Structured violators: damage at exactly one position class."""
         tag = t[0]
@@ -570,8 +589,16 @@ class Gen:
                 out.append(('c', 'tuple', base[:-1]))                   # length - 1
                 out.append(('c', 'list', base))                         # right items, wrong class
             for i, m in enumerate(t[2:]):
-                for b in self._bad_items(m):
+                bs = self._bad_items(m)
+                for b in bs:
                     out.append(('c', 'tuple', base[:i] + (b,) + base[i + 1:]))   # exactly slot i bad
+                for j, mj in enumerate(t[2:]):                                   # ... next to an unusual conforming sibling
+                    if j != i and bs:
+                        for w in self.odd(mj, 3):
+                            lo, hi = min(i, j), max(i, j)
+                            items = list(base)
+                            items[i], items[j] = bs[0], w
+                            out.append(('c', 'tuple', tuple(items)))
             return out
         if tag == 'tv':
             bs = self._bad_items(t[2])
@@ -612,6 +639,10 @@ class Gen:
             for v in bv:                                   # every value bad, keys fine
                 if gk and _hashable(gk[0]):
                     plists.append(((gk[0], v),))
+            for w in self.odd(t[3], 2):                    # bad key, unusual conforming value
+                for k in bk[:1]:
+                    if _hashable(k):
+                        plists.append(((k, w),))
             hk = [k for k in bk if _hashable(k)]
             if len(hk) >= 2 and gv:
                 plists.append(((hk[0], gv[0]), (hk[1], gv[0])))
@@ -730,6 +761,12 @@ def _mixed(self, t, nest=True):
                     items = tuple(bads[0] if j == i else good[min(j, len(good) - 1) if j < i else 0] for j in range(n))
                     o = ('c', c, items)
                     if buildable(o):
+                        out.append(o)
+        for w in self.odd(child, 3):
+            for c in carriers[:3]:
+                for items in ((w, bads[0]), (bads[0], w)):
+                    o = ('c', c, items)
+                    if c not in ('gen', 'iter', 'UCont') and buildable(o):
                         out.append(o)
     if nest:
         for mo in self.mixed(child, nest=False)[:4]:
